@@ -54,6 +54,8 @@ def gen_case(job, seed):
         n = job.get("shape_n", 4)
         idx = seed if not job.get("shape_sample") else rng.randrange(len(defs.shape_family(n)))
         return defs.gen_shape(idx, n, literal=bool(job.get("shape_literal")))
+    if g == "chain":
+        return defs.gen_chain(seed)
     if g == "cmds":
         return defs.gen_cmds(seed)
     if g == "rwait":
